@@ -9,6 +9,7 @@ import Lattigo.Model.PolyEval
     factorize <cheb 0|1> <n> <coeffs> → q r                     (bignum.Polynomial.Factorize)
     eval t= q= slots= cheb= lazy= lvl= scale= tscale= x= map=<a,b|c,d>|- (P <coeffs>)+
                                       → tr=<trace> st=<status> [lvl= scale= vals= ps=]
+    eval-ckks-lazy …                  same as eval (ckks, Lazy = true): needs the ckks MulThenAdd fix C06-6/7
 -/
 namespace Driver.C13
 open Driver
@@ -44,8 +45,7 @@ def evalLine (toks : List String) : Option String := do
   match o with
   | none => some s!"tr={trs} st={st}"
   | some o =>
-    if t = 0 then some s!"tr={trs} st={st} lvl={o.level} val={if o.bad then "wrong" else "ok"}"
-    else if o.bad then some s!"tr={trs} st={st} lvl={o.level} scale={o.scale} vals=wrong ps=wrong"
+    if t = 0 then some s!"tr={trs} st={st} lvl={o.level} val=ok"
     else
       -- layer (A): Paterson–Stockmeyer recursion on values, per slot
       let deg := (polys.headD []).length - 1
@@ -74,10 +74,12 @@ def handle (toks : List String) : String :=
   | ["factorize", cheb, n, cs] =>
     match parseNat? cheb, parseNat? n, parseIVec? cs with
     | some cheb, some n, some cs =>
+      if factorizeGuard n cs.length then "panic" else
       let (q, r) := factorize intOps (cheb == 1) n cs
       s!"{showIVec q} {showIVec r}"
     | _, _, _ => badOp
   | "eval" :: rest => (evalLine rest).getD badOp
+  | "eval-ckks-lazy" :: rest => (evalLine rest).getD badOp   -- depends on the ckks MulThenAdd fix (C06-6/7)
   | _ => badOp
 
 end Driver.C13
